@@ -56,6 +56,11 @@ def make_schema(r, i):
                     d["items"].append(("signal", fs[2], [("mux_count", 2), ("mux_signal", ("s", fs[0]))]))
                     d["items"].append(("signal", fs[3], [("mux_count", 3), ("mux_signal", ("s", fs[1]))]))
                     break
+    if i % 3 == 2:
+        # a CAN binding of a struct that is not fixed-size (an array of strings): dbc and can_c give up on it
+        # part-way - in every process alike - and whatever they leave in the tree must not show in cpp / nop
+        decls.append({"kind": "struct", "name": "D%dText" % i, "fields": [{"name": "n", "id": 0, "type": ("u", 8)}, {"name": "lines", "id": 1, "type": ("arr", ("str",), 2)}, {"name": "z", "id": 2, "type": ("u", 8)}]})
+        decls.append({"kind": "impl", "protocol": "can", "type": "D%dText" % i, "name": None, "items": [("field", "id", 2040), ("field", "device", ("s", "ecu"))]})
     structs = [d["name"] for d in decls if d["kind"] == "struct"]
     # a second protocol on some struct, services for the cpp generator
     decls.append({"kind": "impl", "protocol": r.choice(["uart", "lin", "eth"]), "type": structs[0], "name": None, "items": [("field", "id", 1)]})
@@ -81,6 +86,14 @@ def make_schema(r, i):
     return decls
 
 
+def failure_expected(text, g):
+    """Schemas that a generator is SUPPOSED to give up on (the same way in every process): a variable-size CAN
+    binding for dbc / can_c, and the schema nested beyond what the front end walks for every generator."""
+    if "DeepNest" in text:
+        return True
+    return g.split("/")[0] in ("dbc", "can_c") and re.search(r"struct D\d+Text\b", text) is not None
+
+
 def run_child(job, hashseed, tmp, tag):
     jp = os.path.join(tmp, "job_%s.json" % tag)
     json.dump(job, open(jp, "w"))
@@ -102,7 +115,7 @@ def compare(run, base, other, schema_texts, config, what):
             if omap is None:
                 continue
             run.count("maps_compared")
-            if "<exception>" in fmap or "<error>" in fmap:
+            if ("<exception>" in fmap or "<error>" in fmap) and not failure_expected(schema_texts[path], g):
                 run.violation("generator %s failed in the reference run: %s" % (g, fmap), {"schema": schema_texts[path]})
                 return False
             if fmap != omap:
@@ -147,10 +160,30 @@ def run(run):
             open(p, "w").write(text)
             paths.append(p)
             texts[p] = text
+        if run.shard == 0:
+            # one schema nested deeper than the front end walks (it is rejected - in a fresh process and just the
+            # same after any amount of generating in the process); last in the list, so that it always comes
+            # after other generations
+            d = os.path.join(tmp, "deep")
+            os.makedirs(d)
+            text = 'version: "3"\nstruct DeepNest { a @0: ' + "[" * 300 + "u8" + ", 1]" * 300 + ", }\nimpl can for DeepNest { id: 1, }\n"
+            p = os.path.join(d, "main.fcp")
+            open(p, "w").write(text)
+            paths.append(p)
+            texts[p] = text[:200] + " ... DeepNest (300 levels)"
+            run.count("schemas_nested_beyond_the_front_end")
         base, err = run_child({"mode": "fresh", "schemas": paths}, 0, tmp, "base")
         if base is None:
             run.inconclusive_because("reference child failed: %s" % err)
             return
+        for p_ in paths:
+            if "DeepNest" in texts[p_]:
+                # its reference is a process that has done NOTHING else before
+                alone, err = run_child({"mode": "fresh", "schemas": [p_]}, 0, tmp, "deep-alone")
+                if alone is None:
+                    run.inconclusive_because("reference child failed: %s" % err)
+                    return
+                base["results"][p_] = alone["results"][p_]
         run.count("fresh_processes")
         if len(run.samples) < 2:
             p0 = paths[0]
